@@ -18,6 +18,7 @@ from __future__ import absolute_import
 Date and time utilities.
 """
 from time import mktime
+import time
 import datetime
 import calendar
 from email.utils import parsedate
@@ -54,8 +55,9 @@ def timestamp_before(weeks=0, days=0, hours=0, minutes=0, seconds=0):
     True
     """
     delta = datetime.timedelta(weeks=weeks, days=days, hours=hours, minutes=minutes, seconds=seconds)
-    before = datetime.datetime.now() - delta
-    return mktime(before.timetuple())
+    # elapsed time, no arithmetic with local wall clock time: that repeats an
+    # hour when daylight saving time ends
+    return float(int(time.time())) - delta.total_seconds()
 
 
 def timestamp_from_isodate(isodate):
